@@ -17,6 +17,28 @@ import (
 type c04Call struct {
 	Old Call `json:"old"`
 	New Call `json:"new"` // same API/config as Old; equal value = unchanged call
+	// Reject (json / sjson / yaml, New == Old): in the updating run this call is made with an input that is rejected before
+	// the comparison ("invalid" text, or a "matcher" on a path the document lacks): it fails, writes nothing - and still is
+	// the k-th call: the calls after it rewrite THEIR entries
+	Reject string `json:"rejected_in_the_update_run,omitempty"`
+}
+
+func (cc c04Call) rejected() Call {
+	c := cc.New
+	switch cc.Reject {
+	case "invalid":
+		c.Form = "string"
+		c.Doc = `{"a": [1, }`
+		if c.API == "yaml" {
+			c.Doc = "a: [1\nb: }"
+		}
+	case "matcher":
+		c.Matchers = append(append([]MatcherSpec{}, c.Matchers...), MatcherSpec{Kind: "any", Paths: []string{"no.such.path"}})
+		if c.API == "yaml" {
+			c.Matchers[len(c.Matchers)-1].Paths = []string{"$.no.such.path"}
+		}
+	}
+	return c
 }
 
 type c04Test struct {
@@ -193,7 +215,11 @@ func genC04(t *rapid.T) c04Case {
 					nw = old
 				}
 			}
-			tc.Calls = append(tc.Calls, c04Call{Old: old, New: nw})
+			cc := c04Call{Old: old, New: nw}
+			if (api == "json" || api == "sjson" || api == "yaml") && rapid.IntRange(0, 3).Draw(t, "reject") == 0 {
+				cc.New, cc.Reject = old, rapid.SampledFrom([]string{"invalid", "matcher"}).Draw(t, "rejectkind")
+			}
+			tc.Calls = append(tc.Calls, cc)
 		}
 		c.Tests = append(c.Tests, tc)
 	}
@@ -212,6 +238,7 @@ func genC04(t *rapid.T) c04Case {
 		c.JSON2 = &JSONCfg{Width: rapid.SampledFrom([]int{80, 20, 200}).Draw(t, "w2"), Indent: rapid.SampledFrom([]string{"  ", "\t", " ", ""}).Draw(t, "i2"), SortKeys: rapid.Bool().Draw(t, "s2")}
 		for ti := range c.Tests {
 			for ci := range c.Tests[ti].Calls {
+				c.Tests[ti].Calls[ci].Reject = "" // (an entry the update run does not rewrite keeps the old options' layout)
 				for _, call := range []*Call{&c.Tests[ti].Calls[ci].Old, &c.Tests[ti].Calls[ci].New} {
 					if (call.API == "json" || call.API == "sjson") && call.Form == "value" {
 						call.Form = "string" // the text form keeps the member order the options may or may not sort
@@ -306,6 +333,16 @@ func checkC04(c c04Case) error {
 			file, id := sc.slot(slotSpec, tc.Name, cc.New)
 			ageDir(root)
 			before := snapDir(root)
+			if cc.Reject != "" {
+				r := cc.rejected().invoke(pick(cc.New, cfg, solo), ft)
+				if out, err := outcomeOf(r); err != nil || out != oFailed {
+					return fmt.Errorf("update run %s call %d (%s, input rejected: %s): outcome %q err %v, want failed", tc.Name, k+1, cc.New.API, cc.Reject, out, err)
+				}
+				if d := diffDirs(before, snapDir(root), true); d != "" {
+					return fmt.Errorf("update run %s call %d (%s): the rejected call wrote: %s", tc.Name, k+1, cc.New.API, d)
+				}
+				continue
+			}
 			r := cc.New.invoke(pick(cc.New, cfg, solo), ft)
 			after := snapDir(root)
 			out, err := outcomeOf(r)
@@ -461,6 +498,10 @@ func classifyC04Base(c c04Case) ([]string, bool) {
 			changed := fullKey(cc.Old) != fullKey(cc.New)
 			if !cc.New.standalone() {
 				multiIdx++
+			}
+			if cc.Reject != "" {
+				cls = append(cls, "call_rejected_in_the_update_run_"+cc.Reject)
+				continue
 			}
 			if !changed {
 				cls = append(cls, "unchanged_call")
